@@ -323,7 +323,7 @@ pub fn run(ctx: &Ctx) {
     );
     ctx.subspace("proptest byte strings of length 0..128 (shrinking)", cases as u64, false);
     if std::env::var("VCHECK_FUZZ").is_ok() && !ctx.quick() {
-        crate::fuzzdrv::run_campaign(ctx, "dissect", 3000000);
+        crate::fuzzdrv::run_campaign_par(ctx, "dissect", 12_000_000, 8, 4096);
     }
 }
 
